@@ -588,29 +588,35 @@ def bits_le(v, n):
 
 
 def model_exprs(rng, p, l, k, op, a, P, ntapes):
-    """List of (coq_expr, want) for op on operand values a (Python ints), several random tapes.
-    want: int (mod p), or set of ints (mod p)."""
+    """List of (coq_expr, want) for op on operand values a (Python ints), several tapes drawn in the
+    ranges the code draws from (tape 0: all-minimal, tape 1: all-maximal, then random).
+    want: int (mod p), bool, or set of ints (mod p)."""
     out = []
     Z = zlit
+    if op in ('lt', 'gt', 'le', 'ge', 'eq', 'ne') and len(a) == 2:
+        # comparisons are sgn(x - y, LT) / is_zero(x - y) (+ a local 1 - .): model the protocol on the difference
+        d = {'lt': a[0] - a[1], 'ge': a[0] - a[1], 'gt': a[1] - a[0], 'le': a[1] - a[0], 'eq': a[0] - a[1], 'ne': a[0] - a[1]}[op]
+        return model_exprs(rng, p, l, k, 'sgn_eq' if op in ('eq', 'ne') else 'sgn_lt', [d], P, ntapes)
     for tno in range(ntapes):
-        sp = tno if tno < 2 else None       # all-zero tape, all-max tape, then random tapes
+        sp = tno if tno < 2 else None
         ssign = rng.choice([1, p - 1]) if sp is None else (1 if sp else p - 1)
-        if op in ('sgn', 'sgn_lt', 'sgn_eq'):
+        rz = rng.randrange(1, p) if sp is None else (1 if sp == 0 else p - 1)
+        if op in ('sgn', 'sgn_lt', 'sgn_eq', 'is_zero'):
             x = a[0]
-            mode = {'sgn': 0, 'sgn_lt': 1, 'sgn_eq': 2}[op]
-            e = 'sgn_v %s %s %s %s %s %s %s' % (Z(p), Z(l), Z(mode), Z(x % p), zlist(rbits(rng, l, sp)),
-                                                 Z(rand_below(rng, 1 << k, sp)), Z(ssign))
-            want = {'sgn': _sgn(x), 'sgn_lt': int(x < 0), 'sgn_eq': int(x == 0)}[op] % p
-        elif op == 'lsb':
+            mode = {'sgn': 0, 'sgn_lt': 1, 'sgn_eq': 2, 'is_zero': 2}[op]
+            e = 'sgn_v %s %s %s %s %s %s %s %s' % (Z(p), Z(l), Z(mode), Z(x % p), zlist(rbits(rng, l, sp)),
+                                                    Z(rand_below(rng, 1 << k, sp)), Z(ssign), Z(rz))
+            want = {0: _sgn(x), 1: int(x < 0), 2: int(x == 0)}[mode] % p
+        elif op == 'lsb' or (op == 'mod' and P.get('b') == 2):
             e = 'lsb_v %s %s %s %s %s' % (Z(p), Z(l), Z(a[0] % p), Z(rng.getrandbits(1) if sp is None else sp),
                                           Z(rand_below(rng, 1 << (l + k - 1), sp)))
             want = (a[0] % 2) % p
         elif op in ('mod', 'floordiv'):
             b = P['b']
             nb = (b - 1).bit_length()
-            rm = rand_below(rng, b, sp)          # _randbelow(b): uniformly random bits of a value < b
-            e = '%s %s %s %s %s %s %s %s' % ('mod_v' if op == 'mod' else 'floordiv_v', Z(p), Z(l), Z(b), Z(a[0] % p),
-                                             zlist(bits_le(rm, nb)), Z(rand_below(rng, 1 << k, sp)), Z(ssign))
+            rm = rand_below(rng, b, sp)          # _randbelow(b): bits of a secret value < b
+            e = '%s %s %s %s %s %s %s %s %s' % ('mod_v' if op == 'mod' else 'floordiv_v', Z(p), Z(l), Z(b), Z(a[0] % p),
+                                                zlist(bits_le(rm, nb)), Z(rand_below(rng, 1 << k, sp)), Z(ssign), Z(rz))
             want = (a[0] % b if op == 'mod' else a[0] // b) % p
         elif op == 'trunc':
             f = P['f']
@@ -619,41 +625,45 @@ def model_exprs(rng, p, l, k, op, a, P, ntapes):
             q = a[0] >> f
             want = {q % p, (q + 1) % p}
         elif op == 'is_zero_public':
-            r = rng.randrange(1, p) if sp is None else (1 if sp == 0 else p - 1)
-            e = 'is_zero_public_v %s %s %s' % (Z(p), Z(a[0] % p), Z(r))
+            e = 'is_zero_public_v %s %s %s' % (Z(p), Z(a[0] % p), Z(rz))
             want = a[0] == 0
-        elif op == 'pow':
-            e = 'pow_v %s %s %s' % (Z(p), Z(a[0] % p), Z(P['e']))
-            want = (a[0] ** P['e']) % p
-            out.append((e, want))
-            break
         elif op == 'abs':
-            e = 'abs_v %s %s %s %s %s %s' % (Z(p), Z(l), Z(a[0] % p), zlist(rbits(rng, l, sp)),
-                                             Z(rand_below(rng, 1 << k, sp)), Z(ssign))
+            e = 'abs_v %s %s %s %s %s %s %s' % (Z(p), Z(l), Z(a[0] % p), zlist(rbits(rng, l, sp)),
+                                                Z(rand_below(rng, 1 << k, sp)), Z(ssign), Z(rz))
             want = abs(a[0]) % p
+        elif op == 'pow':
+            return [('pow_v %s %s %s' % (Z(p), Z(a[0] % p), Z(P['e'])), (a[0] ** P['e']) % p)]
         elif op in ('prod', 'all'):
-            e = 'prod_v %s %s' % (Z(p), zlist([x % p for x in a[0]]))
-            want = math.prod(a[0]) % p
-            out.append((e, want))
-            break
+            return [('prod_v %s %s' % (Z(p), zlist([x % p for x in a[0]])), math.prod(a[0]) % p)]
         elif op == 'if_else':
-            e = 'if_else_v %s %s %s %s' % (Z(p), Z(a[0] % p), Z(a[1] % p), Z(a[2] % p))
-            want = (a[1] if a[0] else a[2]) % p
-            out.append((e, want))
-            break
+            return [('if_else_v %s %s %s %s' % (Z(p), Z(a[0] % p), Z(a[1] % p), Z(a[2] % p)), (a[1] if a[0] else a[2]) % p)]
+        elif op == 'if_swap':
+            return [('if_swap_v %s %s %s %s' % (Z(p), Z(a[0] % p), Z(a[1] % p), Z(a[2] % p)),
+                     ((a[2] if a[0] else a[1]) % p, (a[1] if a[0] else a[2]) % p))]
         elif op == 'in_prod':
-            e = 'in_prod_v %s %s %s' % (Z(p), zlist([x % p for x in a[0]]), zlist([x % p for x in a[1]]))
-            want = sum(x * y for x, y in zip(a[0], a[1])) % p
-            out.append((e, want))
-            break
+            return [('in_prod_v %s %s %s' % (Z(p), zlist([x % p for x in a[0]]), zlist([x % p for x in a[1]])),
+                     sum(x * y for x, y in zip(a[0], a[1])) % p)]
+        elif op == 'sum':
+            return [('sum_v %s %s' % (Z(p), zlist([x % p for x in a[0]])), sum(a[0]) % p)]
+        elif op == 'matrix_prod':
+            A, B = a[0], a[1]
+            Bt = B if P['tr'] else [list(c) for c in zip(*B)]
+            want = [[sum(x * y for x, y in zip(r, c)) % p for c in Bt] for r in A]
+            return [('matrix_prod_v %s [%s] [%s]' % (Z(p), '; '.join(zlist([x % p for x in r]) for r in A),
+                                                     '; '.join(zlist([x % p for x in r]) for r in Bt)), want)]
+        elif op == 'matrix_prod_self':
+            A = a[0]
+            want = [[sum(x * y for x, y in zip(r, c)) % p for c in A] for r in A]
+            return [('matrix_prod_sym_v %s [%s]' % (Z(p), '; '.join(zlist([x % p for x in r]) for r in A)), want)]
         else:
             return []
         out.append((e, want))
     return out
 
 
-MODEL_OPS = ('sgn', 'sgn_lt', 'sgn_eq', 'lsb', 'mod', 'floordiv', 'trunc', 'is_zero_public', 'pow', 'abs', 'prod', 'all',
-             'if_else', 'in_prod')
+MODEL_OPS = ('sgn', 'sgn_lt', 'sgn_eq', 'is_zero', 'lsb', 'mod', 'floordiv', 'trunc', 'is_zero_public', 'pow', 'abs',
+             'prod', 'all', 'if_else', 'if_swap', 'in_prod', 'sum', 'matrix_prod', 'matrix_prod_self',
+             'lt', 'gt', 'le', 'ge', 'eq', 'ne')
 
 
 # ------------------------------------------------------------------------------------------------
@@ -671,6 +681,14 @@ def run(ctx):
         ok = ctx.check_props() and ok
     else:
         ctx.notes.append('coq/props/C01.v absent: no theorems recorded in this run')
+    ctx.assumptions += [
+        'field prime p > 2^(l+k+1) (sectypes._pfield: primes of l+k+2 bits); p prime (C26)',
+        'tape ranges as drawn by the code: random bits in {0,1}, r_div < 2^k (resp. 2^(k+l-f), 2^(l+k-1)), random sign in {1, p-1}',
+        'good_tape is_zero_public: blinding factor r != 0 mod p (complement: probability 1/p, or excluded by the retry loop for fields below 2k bits)',
+        'good_tape _mod: the masked opening a + 2^l - 2^l mod b + b*r_divb - r_modb is non-negative (holds for every tape with r_divb >= 1; fails only for part of the tapes with r_divb = 0, probability < 2^-k)',
+        'BY_bound l (g = 0 after _iterations(l) divsteps, Bernstein-Yang Thm 11.2): proved by exhaustive computation for l <= 9, hypothesis of the gcd/lcm/gcdext/inverse theorems above that; inverse_range_bound l proved for l <= 7',
+        'comparisons inside divsteps/gcd and the share-level layer (reshare, output, PRSS) are idealised in the Coq value-level models; the simulator runs exercise them unmodified',
+    ]
     rng = ctx.rng
     thorough = ctx.tier == 'thorough'
     configs = [(m, t, np_) for (m, t) in CONFIGS + ([(7, 3)] if thorough else []) for np_ in (False, True)]
@@ -688,9 +706,9 @@ def run(ctx):
                  (32, 8, 22, LIGHT_WEIGHTS, 8, 'light'), (64, 6, 10, LIGHT_WEIGHTS, 2, 'light'),
                  (8, 6, 5, HEAVY_WEIGHTS, 6, 'heavy'), (16, 6, 4, HEAVY_WEIGHTS, 3, 'heavy'), (32, 6, 2, HEAVY_WEIGHTS, 1, 'heavy')]
     else:
-        plan += [(8, 8, 22, LIGHT_WEIGHTS, 3, 'light'), (16, 8, 20, LIGHT_WEIGHTS, 2, 'light'),
-                 (32, 8, 16, LIGHT_WEIGHTS, 2, 'light'), (64, 5, 6, LIGHT_WEIGHTS, 1, 'light'),
-                 (8, 6, 3, HEAVY_WEIGHTS, 2, 'heavy'), (16, 6, 1, HEAVY_WEIGHTS, 1, 'heavy')]
+        plan += [(8, 8, 22, LIGHT_WEIGHTS, 6, 'light'), (16, 8, 20, LIGHT_WEIGHTS, 4, 'light'),
+                 (32, 8, 16, LIGHT_WEIGHTS, 3, 'light'), (64, 5, 6, LIGHT_WEIGHTS, 1, 'light'),
+                 (8, 6, 3, HEAVY_WEIGHTS, 3, 'heavy'), (16, 6, 1, HEAVY_WEIGHTS, 1, 'heavy')]
     programs = []
     for (l, nin, nops, w, cnt, tag) in plan:
         for _ in range(cnt):
@@ -722,8 +740,6 @@ def run(ctx):
                 ctx.violation('start-failed m=%d t=%d' % (m, t), {'m': m, 't': t, 'no_prss': np_, 'start': repr(st)})
                 continue
             for pno, (tag, program, vals, kinds) in enumerate(programs):
-                if program['l'] == 64 and m == 1 and False:
-                    continue
                 r = rng.random()
                 receivers = None if r < 0.6 or m == 1 else sorted(rng.sample(range(m), rng.randint(1, m)))
                 policy = Fifo() if rng.random() < 0.7 else RandomOrder(random.Random(rng.randrange(1 << 30)), lazy=0.1)
@@ -746,10 +762,11 @@ def run(ctx):
                                    'all_bad': [repr(b) for b in bad[:6]], 'raw': repr(res)[:1500]})
                     if any(isinstance(x, str) or (isinstance(x, tuple) and x and x[0] == 'EXC') for x in res):
                         break       # the runtimes are in an undefined state after an exception / deadlock
-                if (m, t, np_) in ((3, 1, False), (1, 0, False)) and isinstance(res[0], list):
+                rp = 0 if receivers is None else min(receivers)
+                if (m, t, np_) in ((3, 1, False), (1, 0, False)) and isinstance(res[rp], list) and not bad:
                     for ins in program['instrs']:
                         if ins[0] in MODEL_OPS:
-                            impl_obs.append((program['l'], ins, vals, res[0][ins[3]], m))
+                            impl_obs.append((program['l'], ins, vals, res[rp][ins[3]:ins[3] + ins[4]], m))
             sim.shutdown()
         finally:
             sim.close()
@@ -763,7 +780,7 @@ def run(ctx):
         k = mpc1.options.sec_param
         fieldp = {}
         exprs, meta = [], []
-        ntapes = ctx.n(6, 16)
+        ntapes = ctx.n(4, 16)
         seen = set()
         for (l, ins, vals, got, m) in impl_obs:
             if l not in fieldp:
@@ -774,8 +791,6 @@ def run(ctx):
                 return [val(y) for y in x] if isinstance(x, list) else vals[x]
             a = [val(x) for x in ins[1]]
             sig = repr((l, ins[0], a, ins[2]))
-            if ins[0] == 'pow' and ins[2]['e'] == 254:
-                continue
             for (e, want) in model_exprs(rng, p, l, k, ins[0], a, ins[2], 1 if sig in seen else ntapes):
                 exprs.append(e)
                 meta.append((l, p, ins[0], a, ins[2], want, got))
@@ -788,28 +803,43 @@ def run(ctx):
                 for op in ('sgn_lt', 'sgn_eq', 'sgn'):
                     if op != 'sgn_lt' and x == -2 * h:
                         continue
-                    for (e, want) in model_exprs(rng, p, l, k, op, [x], {}, 4):
+                    for (e, want) in model_exprs(rng, p, l, k, op, [x], {}, ctx.n(3, 6)):
                         exprs.append(e)
                         meta.append((l, p, op, [x], {}, want, None))
-            for x in (-h, -h + 1, -3, -2, -1, 0, 1, 2, 3, h - 2, h - 1):
+            for x in (-h, -h + 1, -2, -1, 0, 1, 2, h - 1) if not thorough else (-h, -h + 1, -3, -2, -1, 0, 1, 2, 3, h - 2, h - 1):
                 for op, P in [('lsb', {}), ('abs', {})] + [(o, {'b': b}) for o in ('mod', 'floordiv')
-                                                             for b in (1, 2, 3, 4, 7, h - 1, h)] + \
-                             [('trunc', {'f': f}) for f in (1, 2, l // 2, l - 2)]:
-                    for (e, want) in model_exprs(rng, p, l, k, op, [x], P, 3):
+                                                             for b in (1, 3, 4, h - 1, h)] + \
+                             [('trunc', {'f': f}) for f in (1, l // 2, l - 2)]:
+                    for (e, want) in model_exprs(rng, p, l, k, op, [x], P, 2 if op == 'floordiv' else 3):
                         exprs.append(e)
                         meta.append((l, p, op, [x], P, want, None))
+        cap = ctx.n(1300, 12000)
+        if len(exprs) > cap:
+            idx = sorted(rng.sample(range(len(exprs)), cap))
+            exprs, meta = [exprs[i] for i in idx], [meta[i] for i in idx]
         ctx.log('evaluating %d model expressions in Coq' % len(exprs))
         res = ctx.coq_eval(['MPyC.Masked'], exprs, chunk=200)
         mism = 0
         for r, (l, p, op, a, P, want, got) in zip(res, meta):
-            good = (r in want) if isinstance(want, set) else (r == want and type(r) is type(want))
-            if good and got is not None:     # implementation output for the same operands
+            if isinstance(r, tuple) and not isinstance(want, tuple):
+                good = False
+            elif isinstance(want, set):
+                good = r in want
+            else:
+                good = (r == want and type(r) is type(want))
+            if good and got is not None:     # the implementation's outputs for the same operands
                 if isinstance(want, set):
-                    good = (got % p) in want
+                    good = (got[0] % p) in want
                 elif isinstance(want, bool):
-                    good = got is want
+                    good = got[0] is want
+                elif isinstance(want, tuple):
+                    good = tuple(g % p for g in got) == want
+                elif isinstance(want, list):
+                    good = [g % p for g in got] == [x for row in want for x in row]
+                elif op in ('le', 'ge', 'ne'):      # 1 - (protocol result)
+                    good = (1 - got[0]) % p == want
                 else:
-                    good = (got % p) == r
+                    good = (got[0] % p) == want
             if not good:
                 mism += 1
                 if len(ctx.broken) < 20:
